@@ -112,10 +112,13 @@ func labelC04(c caseC04, v kit.FeeVerdict, rec *kit.Recorder) {
 	switch {
 	case v.DontCare:
 		rec.Label("model", "don't-care ("+v.DontCareReason[9:]+")")
+		rec.Sample("model don't-care", map[string]any{"case": c, "why": v.DontCareReason})
 	case v.Refuse:
 		rec.Label("model", "refuse")
+		rec.Sample("model refuses", map[string]any{"case": c, "reason": v.Reason})
 	default:
 		rec.Label("model", "accept")
+		rec.Sample("model accepts", map[string]any{"case": c, "total": v.Total.String(), "remaining": v.Remaining.String()})
 	}
 }
 
